@@ -52,10 +52,20 @@ def parse (text : String) : Option (List Stmt) := do
 
 def dffBB : BBox := { name := "dff", ins := ["D"], outs := ["Q"] }
 
+/-- a gate's fan-in is a set: in a parity gate an operand given an even number of times cancels (fix K35); if every
+    operand cancels the net is the constant 0 (XOR) / 1 (XNOR) -/
+def parityGate (ty : String) (ins : List Name) : String × List Name :=
+  if (ty == "xor" || ty == "xnor") && (dedup ins).length < ins.length then
+    let r := (dedup ins).filter (fun p => ins.count p % 2 == 1)
+    if r.isEmpty then (if ty == "xor" then "0" else "1", []) else (ty, r)
+  else (ty, ins)
+
 /-- the API calls made for one statement -/
 def build1 (c : Circuit) : Stmt → E Circuit
   | .input n => Tx.addC c { n := n, ty := "input" }
-  | .gate net ty ins => Tx.addC c { n := net, ty := ty, fanin := ins, addConnected := true, allowRedef := true }
+  | .gate net ty ins =>
+    let g := parityGate ty ins
+    Tx.addC c { n := net, ty := g.1, fanin := g.2, addConnected := true, allowRedef := true }
   | .dffNet net => Tx.addC c { n := net, ty := "buf", allowRedef := true }
   | .dff net d =>
     liftO (c.addBlackbox dffBB (net ++ "_dff") [("D", if d.isEmpty then [] else [d]), ("Q", if net.isEmpty then [] else [net])] id)
